@@ -348,7 +348,7 @@ def mutate(rng, cls, vs):
                     continue
                 pos = rng.randrange(len(pre))
                 if isinstance(pre[pos], tuple):
-                    alt = (pre[pos][0], (pre[pos][1] or 1) + 1)
+                    alt = (pre[pos][0], 7 if pre[pos][1] is None else (pre[pos][1] + 1 if pre[pos][1] < 1000 else 12))
                 else:
                     alts = [m["name"] for m in masters if m["name"] != pre[pos]]
                     if not alts:
